@@ -991,11 +991,11 @@ Definition hyp_seg (ctx : text -> text) (raw_dates : bool) (s : seg) : bool :=
 Definition check_hyp (k : lcase) : bool :=
   forallb (hyp_seg (ctx_of (k_ctx k)) (k_raw_dates k)) (k_segs k).
 
-Fixpoint mismatches2_from (i : N) (ks : list (lcase * bool)) : list N :=
+Fixpoint hyp_mismatches_from (i : N) (ks : list (lcase * bool)) : list N :=
   match ks with
   | [] => []
   | (k, clean) :: rest =>
-      (if check k && (negb clean || check_hyp k) then [] else [i]) ++ mismatches2_from (i + 1) rest
+      (if negb clean || check_hyp k then [] else [i]) ++ hyp_mismatches_from (i + 1) rest
   end.
 
-Definition mismatches2 (ks : list (lcase * bool)) : list N := mismatches2_from 0 ks.
+Definition hyp_mismatches (ks : list (lcase * bool)) : list N := hyp_mismatches_from 0 ks.
